@@ -257,8 +257,11 @@ def viewHdf (d : Disk) : R :=
 
 /-! ### the op sequences the code emits (shape fixed by the generated flags) -/
 
-def writes {α} (n : Nat) (mk : Bool → α) : List α :=
-  (List.range n).map fun i => mk (i + 1 == n)
+/-- `n` write calls to one file: only the last one completes it -/
+def writes {α} : Nat → (Bool → α) → List α
+  | 0, _ => []
+  | 1, mk => [mk true]
+  | n + 2, mk => mk false :: writes (n + 1) mk
 
 /-- `BinnedTrees.build` when it rebuilds, `nt ≥ 1` writes of the pickle, `nm ≥ 1` of the marker -/
 def buildOps (invalidateFirst atomic hadMarker : Bool) (p : Nat) (b : Bin) (nt nm : Nat) : List Op :=
